@@ -76,7 +76,7 @@ def gen(rng: Any, prop: str, tier: str) -> dict[str, Any]:
         elif kind == "unset":
             g.exec(sid, {"t": "unset_var", "name": rng.choice(have)}, cur=cur)
         elif kind == "use":
-            k = rng.choice([1, 1, 2])
+            k = rng.choice([1, 1, 2, 3, 4])  # also several references to the same variable in one statement
             g.exec(sid, {"t": "select_var", "names": [rng.choice(have) for _ in range(k)]}, cur=cur)
         elif kind == "use_where":
             ints = [n for n in have if isinstance(g.m.sessions[sid]["vars"][n], int)]
